@@ -100,6 +100,8 @@ type PipeResult struct {
 	Buckets       int            `json:"limiter_buckets"`
 	MaxBuckets    int            `json:"limiter_max_buckets"`
 	OpenBodies    int            `json:"open_bodies"`
+	IdleAtTimeout int64          `json:"idle_at_timeout_ms"` // when the watchdog fired: time since the last event
+	TableAtTimeout int           `json:"table_at_timeout"`   // ... and seeds still tracked by the reactor
 	Events        int            `json:"events"`
 	PausedAtStop  bool           `json:"paused_at_stop"`
 	QuiescentAtMs int64          `json:"quiescent_at_ms"`
@@ -391,6 +393,8 @@ loop:
 			break loop
 		case <-deadline:
 			res.TimedOut = true
+			res.IdleAtTimeout = time.Since(time.Unix(0, lastEvent.Load())).Milliseconds()
+			res.TableAtTimeout = len(reactor.GetStateTable())
 			break loop
 		case <-tick.C:
 			select {
